@@ -3,6 +3,7 @@ package dyntpl
 // Collection of conversion functions.
 
 import (
+	"reflect"
 	"strconv"
 
 	"github.com/koykov/bytebuf"
@@ -13,8 +14,18 @@ type intConverter interface {
 	Int() (int64, error)
 }
 
+// typedNil reports whether val holds a nil pointer: (*int)(nil) stored in an interface is not a nil interface, and the
+// conversions dereference the pointers they are given. A nil pointer converts to nothing, like an absent value.
+func typedNil(val any) bool {
+	rv := reflect.ValueOf(val)
+	return rv.Kind() == reflect.Ptr && rv.IsNil()
+}
+
 // ConvInt tries to convert value to integer.
 func ConvInt(val any) (i int64, ok bool) {
+	if typedNil(val) {
+		return
+	}
 	ok = true
 	switch val.(type) {
 	case int:
@@ -45,6 +56,9 @@ func ConvInt(val any) (i int64, ok bool) {
 
 // ConvUint tries to convert value to uint.
 func ConvUint(val any) (u uint64, ok bool) {
+	if typedNil(val) {
+		return
+	}
 	ok = true
 	switch val.(type) {
 	case uint:
@@ -75,6 +89,9 @@ func ConvUint(val any) (u uint64, ok bool) {
 
 // ConvFloat tries to convert value to float.
 func ConvFloat(val any) (f float64, ok bool) {
+	if typedNil(val) {
+		return
+	}
 	ok = true
 	switch val.(type) {
 	case float32:
@@ -93,6 +110,9 @@ func ConvFloat(val any) (f float64, ok bool) {
 
 // ConvBytes tries to convert value to bytes.
 func ConvBytes(val any) (b []byte, ok bool) {
+	if typedNil(val) {
+		return
+	}
 	ok = true
 	switch val.(type) {
 	case []byte:
@@ -111,6 +131,9 @@ func ConvBytes(val any) (b []byte, ok bool) {
 
 // ConvBytesSlice tries to convert value to slice of bytes.
 func ConvBytesSlice(val any) (b [][]byte, ok bool) {
+	if typedNil(val) {
+		return
+	}
 	ok = true
 	switch val.(type) {
 	case [][]byte:
@@ -125,6 +148,9 @@ func ConvBytesSlice(val any) (b [][]byte, ok bool) {
 
 // ConvStr tries to convert value to string.
 func ConvStr(val any) (s string, ok bool) {
+	if typedNil(val) {
+		return
+	}
 	ok = true
 	switch val.(type) {
 	case string:
@@ -139,6 +165,9 @@ func ConvStr(val any) (s string, ok bool) {
 
 // ConvStrSlice tries to convert value to string slice.
 func ConvStrSlice(val any) (s []string, ok bool) {
+	if typedNil(val) {
+		return
+	}
 	ok = true
 	switch val.(type) {
 	case []string:
@@ -153,6 +182,9 @@ func ConvStrSlice(val any) (s []string, ok bool) {
 
 // ConvBool tries to convert value ti boolean.
 func ConvBool(val any) (b bool, ok bool) {
+	if typedNil(val) {
+		return
+	}
 	ok = true
 	switch val.(type) {
 	case bool:
@@ -177,6 +209,9 @@ func text2int(s string) (int64, bool) {
 
 // Convert interface value with arbitrary underlying type to integer value.
 func if2int(raw any) (r int64, ok bool) {
+	if typedNil(raw) {
+		return
+	}
 	ok = true
 	switch raw.(type) {
 	case int:
